@@ -15,6 +15,7 @@ Inductive op7 :=
 | O7Write (k : N) (b : batch)
 | O7Fail (m : fmode)
 | O7Block                  (* the single flush worker blocks inside its next storage.Write *)
+| O7BlockCtx               (* ... on a context-aware backend: the blocked Write returns ctx.Err() when Close cancels *)
 | O7Unblock
 | O7FlushAll
 | O7Age (old : bool)       (* rotated WAL files become older than MinFileAge (false) / older than safeAge (true) *)
@@ -24,7 +25,7 @@ Inductive op7 :=
 | O7Close.
 
 Notation st7 := (st N batch (list N) (Z * batch)%type) (only parsing).
-Record sstate := { ss : st7; ss_mode : fmode; ss_blocked : bool }.
+Record sstate := { ss : st7; ss_mode : fmode; ss_blocked : bool; ss_ctx : bool }.
 
 Fixpoint find_idx {A} (p : A -> bool) (l : list A) (i : nat) : option nat :=
   match l with
@@ -60,7 +61,7 @@ Section Sched7.
     end.
 
   Definition lift (x : sstate) (o : option st7) : list sstate :=
-    match o with Some s' => [{| ss := s'; ss_mode := ss_mode x; ss_blocked := ss_blocked x |}] | None => [] end.
+    match o with Some s' => [{| ss := s'; ss_mode := ss_mode x; ss_blocked := ss_blocked x; ss_ctx := ss_ctx x |}] | None => [] end.
   Definition bindl (xs : list sstate) (f : sstate -> list sstate) : list sstate := flat_map f xs.
 
   Definition done_all (x : sstate) (i : nat) : list sstate :=
@@ -96,7 +97,7 @@ Section Sched7.
   Definition write7 (skip_wal : bool) (x : sstate) (k : N) (b : batch) (lbl : label N batch) : list sstate :=
     let s := ss x in
     let pre := match lookup N.eqb k (buffers s) with
-               | Some (sg, _) => if bytes_eqb sg (column_signature b) then [x]
+               | Some (sg, _) => if bytes_eqb sg (buffer_schema_key b) then [x]
                                  else bindl (lift x (stp s (LSchemaFlush k))) (settle7 6)
                | None => [x]
                end in
@@ -128,55 +129,95 @@ Section Sched7.
         end
     end.
 
-  (* replay every entry of the file at the head of [replaying] *)
+  (* replay every entry of the file at the head of [replaying] (stops when none is left) *)
   Fixpoint replay_entries (fuel : nat) (x : sstate) : list sstate :=
     match fuel with
     | O => [x]
     | S f =>
         match replaying (ss x) with
         | (e :: _, _) :: _ => bindl (write7 true x (it_key e) (it_b e) LReplayEntry) (replay_entries f)
-        | ([], _) :: _ => lift x (stp (ss x) LReplayFileDone)
-        | [] => [x]
+        | _ => [x]
         end
     end.
 
-  Fixpoint replay_files (fuel : nat) (x : sstate) : list sstate :=
+  Definition flush_all7 (x : sstate) : list sstate :=
+    extract_all7 (fun k => LFlushAllExtract k) (map fst (buffers (ss x))) x.
+
+  (* RecoverWithOptions: the rotated files in order; a file younger than MinFileAge is skipped; the
+     others are replayed, then FlushReplayed (= ArrowBuffer.FlushAll, 7b9e05e) runs and the file is
+     deleted only if that flush reported no error, otherwise it stays where it is *)
+  Fixpoint replay_files (todo p : nat) (x : sstate) : list sstate :=
+    match todo with
+    | O => [x]
+    | S t =>
+        match nth_error (wal_files (ss x)) p with
+        | None => [x]
+        | Some f =>
+            if is_young (w_age f) then replay_files t (S p) x
+            else
+              bindl (bindl (lift x (stp (ss x) (LReplayStart p))) (replay_entries 64)) (fun x1 =>
+                let d0 := List.length (dropped (ss x1)) in
+                bindl (flush_all7 x1) (fun x2 =>
+                  if Nat.eqb (List.length (dropped (ss x2))) d0
+                  then bindl (lift x2 (stp (ss x2) LReplayFileDone)) (replay_files t p)
+                  else bindl (lift x2 (stp (ss x2) (LReplayFileKeep p (w_age f)))) (replay_files t (S p))))
+        end
+    end.
+
+  (* Close cancelled the buffer context: a Write blocked on a context-aware backend returns ctx.Err() *)
+  Fixpoint cancel_inflight (fuel : nat) (x : sstate) : list sstate :=
     match fuel with
     | O => [x]
-    | S f =>
-        match find_idx (fun w : wfile N batch => negb (is_young (w_age w))) (wal_files (ss x)) 0 with
-        | Some i => bindl (bindl (lift x (stp (ss x) (LReplayStart i))) (replay_entries 64)) (replay_files f)
-        | None => [x]
-        end
+    | S f => match find_idx (fun p : role * task N batch => role_eqb (fst p) RInflight) (busy (ss x)) 0 with
+             | Some i => bindl (lift x (stp (ss x) (LDone i (OFail [])))) (cancel_inflight f)
+             | None => [x]
+             end
+    end.
+
+  (* Close drains the queue itself (only when the configuration says so: fix_drain) *)
+  Fixpoint drain7 (n : nat) (x : sstate) : list sstate :=
+    match n with
+    | O => [x]
+    | S m => if fix_drain cfg
+             then match queue (ss x) with
+                  | [] => [x]
+                  | _ :: _ => bindl (bindl (lift x (stp (ss x) LCloseDrain)) (settle7 4)) (drain7 m)
+                  end
+             else [x]
     end.
 
   Definition op7_run (x : sstate) (o : op7) : list sstate :=
     match o with
     | O7Write k b => write7 false x k b (LWrite k b true)
-    | O7Fail m => [{| ss := ss x; ss_mode := m; ss_blocked := ss_blocked x |}]
-    | O7Block => [{| ss := ss x; ss_mode := ss_mode x; ss_blocked := true |}]
-    | O7Unblock => settle7 64 {| ss := ss x; ss_mode := ss_mode x; ss_blocked := false |}
+    | O7Fail m => [{| ss := ss x; ss_mode := m; ss_blocked := ss_blocked x; ss_ctx := ss_ctx x |}]
+    | O7Block => [{| ss := ss x; ss_mode := ss_mode x; ss_blocked := true; ss_ctx := false |}]
+    | O7BlockCtx => [{| ss := ss x; ss_mode := ss_mode x; ss_blocked := true; ss_ctx := true |}]
+    | O7Unblock => settle7 64 {| ss := ss x; ss_mode := ss_mode x; ss_blocked := false; ss_ctx := false |}
     | O7FlushAll => extract_all7 (fun k => LFlushAllExtract k) (map fst (buffers (ss x))) x
     | O7Age old => age_files old 0 (List.length (wal_files (ss x))) x
     | O7Tick =>
-        (* the harness keeps the flush worker blocked while the tick body runs, so that the order
+        (* one fire of the maintenance ticker (main.go as of 8a1c0f1 / 7b9e05e): with the failure flag
+           set, replay (no purge by age first), flush before delete, reset the flag; otherwise purge by
+           age.  The harness keeps the flush worker blocked while the tick body runs, so that the order
            "replay enqueues ... ResetFlushFailure ... asynchronous flushes finish" is deterministic *)
         if flush_failed (ss x)
-        then let xb := {| ss := ss x; ss_mode := ss_mode x; ss_blocked := true |} in
-             bindl (bindl (bindl (lift xb (stp (ss xb) LPurgeOld)) (replay_files 64)) (fun x1 => lift x1 (stp (ss x1) LResetFlag)))
-                   (fun x2 => settle7 64 {| ss := ss x2; ss_mode := ss_mode x2; ss_blocked := ss_blocked x |})
+        then let xb := {| ss := ss x; ss_mode := ss_mode x; ss_blocked := true; ss_ctx := false |} in
+             bindl (bindl (replay_files (List.length (wal_files (ss xb))) 0 xb) (fun x1 => lift x1 (stp (ss x1) LResetFlag)))
+                   (fun x2 => settle7 64 {| ss := ss x2; ss_mode := ss_mode x2; ss_blocked := ss_blocked x; ss_ctx := ss_ctx x |})
         else lift x (stp (ss x) LPurgeOld)
     | O7PurgeAll => lift x (stp (ss x) LPurgeAll)
     | O7PurgeGuarded => if flush_failed (ss x) then [x] else lift x (stp (ss x) LPurgeAll)
     | O7Close =>
-        bindl (lift x (stp (ss x) LCloseBegin)) (fun x1 =>
+        bindl (lift x (stp (ss x) LCloseBegin)) (fun x0 =>
+        bindl (if ss_ctx x0 then cancel_inflight 4 {| ss := ss x0; ss_mode := ss_mode x0; ss_blocked := false; ss_ctx := false |} else [x0]) (fun x1 =>
         bindl (lift x1 (stp (ss x1) LCloseWait)) (fun x2 =>
-        bindl (extract_all7 (fun k => LCloseExtract k) (map fst (buffers (ss x2))) x2) (fun x3 =>
-        lift x3 (stp (ss x3) LCloseEnd))))
+        bindl (drain7 (List.length (queue (ss x2))) x2) (fun x2' =>
+        bindl (extract_all7 (fun k => LCloseExtract k) (map fst (buffers (ss x2'))) x2') (fun x3 =>
+        lift x3 (stp (ss x3) LCloseEnd))))))
     end.
 
   Definition sched7 (ops : list op7) : list sstate :=
-    fold_left (fun xs o => bindl xs (fun x => op7_run x o)) ops [{| ss := binit; ss_mode := FNone; ss_blocked := false |}].
+    fold_left (fun xs o => bindl xs (fun x => op7_run x o)) ops [{| ss := binit; ss_mode := FNone; ss_blocked := false; ss_ctx := false |}].
 End Sched7.
 
 (* ------------------------------------------------------------------------------------ *)
